@@ -221,3 +221,100 @@ func (e *End) SetReadDeadline(t time.Time) error  { return nil }
 func (e *End) SetWriteDeadline(t time.Time) error { return nil }
 
 var _ net.Conn = (*End)(nil)
+
+// ---------------------------------------------------------------- faults
+
+// FaultMode says what a failing underlying Write did before it failed.
+type FaultMode int
+
+const (
+	FaultNone    FaultMode = iota // error, nothing forwarded
+	FaultWhole                    // the whole buffer was forwarded, then error
+	FaultPartial                  // a prefix was forwarded, then error
+)
+
+func (m FaultMode) String() string {
+	return [...]string{"error-nothing-forwarded", "error-after-whole-frame-forwarded", "error-after-prefix-forwarded"}[m]
+}
+
+// Fault is one planned failure of the call-th Write (0-based) on a FaultConn.
+type Fault struct {
+	Call   int       `json:"underlying_write_call"`
+	Mode   FaultMode `json:"mode"`
+	Prefix int       `json:"prefix_bytes_forwarded,omitempty"`
+}
+
+// HandedWrite is one buffer the code under test handed to the transport.
+type HandedWrite struct {
+	Buf       []byte
+	Forwarded int // bytes that reached the wire
+	Failed    bool
+}
+
+type errInjected struct{}
+
+func (errInjected) Error() string   { return "injected transport write error" }
+func (errInjected) Timeout() bool   { return true }
+func (errInjected) Temporary() bool { return true }
+
+// FaultConn wraps an End: selected Write calls fail (transiently) after
+// forwarding nothing, everything or a prefix.  It records every buffer handed
+// to it.
+type FaultConn struct {
+	*End
+	mu     sync.Mutex
+	faults map[int]Fault
+	handed []HandedWrite
+}
+
+func NewFaultConn(e *End, faults []Fault) *FaultConn {
+	f := &FaultConn{End: e, faults: map[int]Fault{}}
+	for _, x := range faults {
+		f.faults[x.Call] = x
+	}
+	return f
+}
+
+func (f *FaultConn) Write(p []byte) (int, error) {
+	f.mu.Lock()
+	call := len(f.handed)
+	ft, bad := f.faults[call]
+	hw := HandedWrite{Buf: append([]byte{}, p...), Failed: bad}
+	fwd := len(p)
+	if bad {
+		switch ft.Mode {
+		case FaultNone:
+			fwd = 0
+		case FaultPartial:
+			fwd = ft.Prefix
+			if fwd > len(p) {
+				fwd = len(p)
+			}
+		}
+	}
+	hw.Forwarded = fwd
+	f.handed = append(f.handed, hw)
+	f.mu.Unlock()
+	if fwd > 0 {
+		if _, err := f.End.Write(p[:fwd]); err != nil {
+			return 0, err
+		}
+	}
+	if bad {
+		return fwd, errInjected{}
+	}
+	return len(p), nil
+}
+
+// Handed returns a snapshot of the buffers handed so far.
+func (f *FaultConn) Handed() []HandedWrite {
+	f.mu.Lock()
+	defer f.mu.Unlock()
+	return append([]HandedWrite{}, f.handed...)
+}
+
+func (f *FaultConn) HandedCount() int {
+	f.mu.Lock()
+	defer f.mu.Unlock()
+	return len(f.handed)
+}
